@@ -87,7 +87,7 @@ def flat_structure(m):
         if isinstance(x, base.RawTokenModel):
             n = type(x).__name__
             if n in ('Whitespace', 'Newline', 'Eol', 'Indent', 'DedentMark', 'Placeholder', 'Comma'): return None
-            if n == 'BlockComment': comments.append(x.value); return None
+            if n == 'BlockComment': comments.extend(x.value.split('\n')); return None      # adjacent comment blocks lex as one block: compare line by line
             if n == 'InlineComment': return ('InlineComment', x.raw_text.rstrip())
             return (n, x.raw_text)
         kids = [go(c) for c in real_children(x)]
